@@ -2,13 +2,13 @@
 from sim import ref
 from sim.chart import Cfg, swarm, gen_spec, HIST
 from sim.engine import Result, Abandon, fp
-from sim.semrun import Sim, standard_ops, EXPECTED_EXC
+from sim.semrun import Sim, standard_ops, EXPECTED_EXC, materialise
 from sim.checks import common
 
 ID = 'C02'
 LEVEL = 'exploration'
 BUDGET = {'quick': 20, 'thorough': 240}
-STREAM_ORDER = ['ops', 'guards', 'chart', 'cfg']
+STREAM_ORDER = ['ops', 'guards', 'mat', 'chart', 'cfg']
 RULE = (common.GEN + 'after every execute_once that returns normally the configuration is checked against the model-free legality '
         'definition; non-trivial = a step that entered or exited an orthogonal or history state; distinct = distinct '
         '(chart, pre-configuration, fired transitions)')
@@ -25,7 +25,7 @@ def run(ch, tier):
     cfg = swarm(ch.s('cfg'), Cfg(sends=True, delays=True), tier)
     cfg.sends = ch.s('cfg').flag(1, 2)
     sp = gen_spec(ch.s('chart'), cfg)
-    sim = Sim(sp)
+    sim = Sim(sp, statechart=materialise(sp, ch, res))
     was_final = False
     cfp = fp(sp.fingerprint())
     for r in standard_ops(sim, ch, tier, delays=True):
